@@ -1134,16 +1134,18 @@ func (s *Server) checkFlushRequest(req *spb.FlushRequest) error {
 	}
 
 	id := req.GetId()
+	// Take a consistent copy of the election state, which is updated by Modify RPCs.
+	curElecID := s.getElection().ID
 	switch {
-	case id == nil && s.curElecID == nil:
+	case id == nil && curElecID == nil:
 		// We are in ALL_PRIMARY mode and not given an election ID, which is fine.
 		return nil
-	case id == nil && s.curElecID != nil:
+	case id == nil && curElecID != nil:
 		// We are in SINGLE_PRIMARY mode but we were not given an election behaviour.
 		return addFlushErrDetailsOrReturn(status.Newf(codes.FailedPrecondition, "unsupported election behaviour, client in SINGLE_PRIMARY mode"), &spb.FlushResponseError{
 			Status: spb.FlushResponseError_UNSPECIFIED_ELECTION_BEHAVIOR,
 		})
-	case id != nil && s.curElecID == nil:
+	case id != nil && curElecID == nil:
 		return addFlushErrDetailsOrReturn(status.Newf(codes.FailedPrecondition, "received election ID in ALL_PRIMARY mode"), &spb.FlushResponseError{
 			Status: spb.FlushResponseError_ELECTION_ID_IN_ALL_PRIMARY,
 		})
@@ -1160,7 +1162,7 @@ func (s *Server) checkFlushRequest(req *spb.FlushRequest) error {
 		})
 	}
 
-	existing := uint128.New(s.curElecID.Low, s.curElecID.High)
+	existing := uint128.New(curElecID.Low, curElecID.High)
 	if candidate.Cmp(existing) < 0 {
 		return addFlushErrDetailsOrReturn(status.Newf(codes.FailedPrecondition, "election ID specified (%v) is not primary", candidate), &spb.FlushResponseError{
 			Status: spb.FlushResponseError_NOT_PRIMARY,
